@@ -269,9 +269,12 @@ impl Engine for StateSim {
         let mut groups = Vec::new();
         let fault_run = rng.chance(1, 4);
         let mut last: Option<TxSpec> = None;
+        // lifecycle-heavy worlds get longer groups: touch / destroy / re-create of the same
+        // address inside one group needs three or more transactions in it
+        let max_txs = if k.lifecycle_pct >= 60 && rng.bool() { 6 } else { 3 };
         for _ in 0..n {
             let mut g = Group::default();
-            for _ in 0..rng.range(0, 3) {
+            for _ in 0..rng.range(0, max_txs) {
                 let mut tx = match (&last, rng.chance(1, 3)) {
                     (Some(t), true) => t.clone(),
                     _ => gen_tx(rng, &world),
